@@ -46,6 +46,10 @@ pub struct Case {
     /// sites scaled, derivative data divided by the matching power): same coefficients expected
     #[serde(default)]
     pub rescale_exp: i16,
+    /// the interior data sites (with their data) are handed over in another order: rotated by this
+    /// many places, reversed if the top bit is set; 0 = ascending as built
+    #[serde(default)]
+    pub site_perm: u16,
 }
 
 pub struct C15;
@@ -106,8 +110,9 @@ fn case_strategy() -> impl Strategy<Value = Case> {
         prop_oneof![4 => Just(0u8), 1 => 1u8..=6],
         proptest::option::weighted(0.7, [coeff(), coeff(), coeff(), coeff(), coeff()]),
         prop_oneof![6 => Just(0i16), 2 => -70i16..=-30, 2 => 20i16..=40],
+        prop_oneof![2 => Just(0u16), 1 => any::<u16>()],
     )
-        .prop_map(|(mut knots, layout, data, data_kind, evals, lsq_extra, abscissa, rescale_exp)| {
+        .prop_map(|(mut knots, layout, data, data_kind, evals, lsq_extra, abscissa, rescale_exp, site_perm)| {
             knots.k = knots.k.max(2);
             if let Layout::Natural { .. } = layout {
                 knots.k = 4;
@@ -119,7 +124,7 @@ fn case_strategy() -> impl Strategy<Value = Case> {
                     knots.interior.push((2, 1));
                 }
             }
-            Case { knots, layout, data, data_kind, evals, lsq_extra, abscissa, rescale_exp }
+            Case { knots, layout, data, data_kind, evals, lsq_extra, abscissa, rescale_exp, site_perm }
         })
 }
 
@@ -316,6 +321,43 @@ impl Property for C15 {
                 Err(p) => {
                     v.fail(format!("csolve | panic | {}", p.site()), format!("re-solve, k={} t={:?} tau={:?}: {}", k, t, s.tau, p.message));
                     return v;
+                }
+            }
+        }
+        // order of the data sites: the interior sites (first and last row keep their end-condition
+        // role) listed in another order describe the same system with its rows permuted
+        if c.site_perm != 0 && rows >= 4 {
+            let inner = rows - 2;
+            let mut order: Vec<usize> = (1..rows - 1).collect();
+            order.rotate_left((c.site_perm as usize & 0x7fff) % inner);
+            if c.site_perm & 0x8000 != 0 {
+                order.reverse();
+            }
+            if order.windows(2).any(|w| w[0] > w[1]) {
+                v.label("sites:unsorted");
+                let idx: Vec<usize> = std::iter::once(0).chain(order.into_iter()).chain(std::iter::once(rows - 1)).collect();
+                let tau_p: Vec<f64> = idx.iter().map(|j| s.tau[*j]).collect();
+                let y_p: Vec<f64> = idx.iter().map(|j| s.y[*j]).collect();
+                let cs0 = coef.iter().fold(s.y.iter().fold(1.0f64, |m, x| m.max(x.abs())), |m, x| m.max(x.abs()));
+                match catch(|| {
+                    let mut q = PPSpline::<f64>::new(k, t.clone(), None);
+                    let ok = q.csolve(&tau_p, &y_p, s.left_n, s.right_n, s.lsq).is_ok();
+                    (ok, q.c().as_ref().map(|c| c.to_vec()).unwrap_or_default())
+                }) {
+                    Ok((true, cp)) => {
+                        if cp.len() != n || (0..n).any(|i| !((cp[i] - coef[i]).abs() <= 1e-9 * cond * cs0)) {
+                            v.fail("the order in which the data sites are listed changes the solution", format!("k={} t={:?} sites {:?} (ascending: {:?}) end orders ({}, {}) lsq={}: {:?} vs {:?}", k, t, tau_p, s.tau, s.left_n, s.right_n, s.lsq, cp, coef));
+                            return v;
+                        }
+                    }
+                    Ok((false, _)) => {
+                        v.fail("csolve rejected an admissible site set", format!("sites listed as {:?}", tau_p));
+                        return v;
+                    }
+                    Err(p) => {
+                        v.fail(format!("csolve | panic | {}", p.site()), format!("sites listed as {:?}: {}", tau_p, p.message));
+                        return v;
+                    }
                 }
             }
         }
@@ -798,7 +840,7 @@ impl Property for C15 {
     }
 
     fn rule(&self) -> String {
-        "random (order 2-6, knot sequence as in C14, site layout: Greville sites with end rows of derivative order 0-2, or for order 4 with distinct interior knots the callers' natural / clamped layout [a,a,interior knots,b,b] with second / first derivative end conditions; data: random floats or samples of a random polynomial of degree < k with matching end-derivative values; data kind float / first-order / second-order with datum j tagged y{j}; optional 1-6 extra sites solved by least squares; 1-4 evaluation points as in C14). Site sets are admissible by construction; draws whose collocation matrix has cond >= 1e8 (own estimate) are skipped and counted. Oracle: coefficients x reference basis (C14 model) reproduce every data row and end condition; an object solved before on other data (and through a failed call) ends with bit-identical coefficients; in 40% of draws the problem is solved again on a domain multiplied by 2^-70..-30 or 2^20..40 (knots and sites scaled, derivative data divided by the matching power) and must give the same coefficients and the rescaled evaluations (on huge domains with derivative end rows only: data rows reproduced, natural / clamped end conditions met to 5% of their own terms - partial pivoting is not row-scaling invariant); polynomial data are reproduced with all derivatives m <= k everywhere; library evaluation == coefficients x reference basis; dual abscissae (plain tagged and composite) return s', s'' as sensitivities, for the spline and for every basis function through the four public dual basis entry points; splines with dual data evaluated at a dual abscissa (m = 0 and m = 1) carry d/dx = next derivative, d/dy_j = unit-data spline (its derivative for m = 1) and, at second order, the mixed (x, y_j) terms; for dual data d s(x)/d y_j == row of the independently inverted collocation matrix (and the library's own unit-data spline), zero Hessian; the 3x3 spline-kind x abscissa-kind table (mapped_value and direct) returns matching kinds and refuses first/second-order mixes; unsolved evaluation, wrong site counts and y/tau length mismatches are errors. Non-trivial: k >= 3, >= 1 interior knot, and non-polynomial or dual data.".into()
+        "random (order 2-6, knot sequence as in C14, site layout: Greville sites with end rows of derivative order 0-2, or for order 4 with distinct interior knots the callers' natural / clamped layout [a,a,interior knots,b,b] with second / first derivative end conditions; data: random floats or samples of a random polynomial of degree < k with matching end-derivative values; data kind float / first-order / second-order with datum j tagged y{j}; optional 1-6 extra sites solved by least squares; 1-4 evaluation points as in C14). Site sets are admissible by construction; draws whose collocation matrix has cond >= 1e8 (own estimate) are skipped and counted. Oracle: coefficients x reference basis (C14 model) reproduce every data row and end condition; an object solved before on other data (and through a failed call) ends with bit-identical coefficients; in a third of the draws the interior data sites are listed in another order (rotated / reversed) and must give the same coefficients; in 40% of draws the problem is solved again on a domain multiplied by 2^-70..-30 or 2^20..40 (knots and sites scaled, derivative data divided by the matching power) and must give the same coefficients and the rescaled evaluations (on huge domains with derivative end rows only: data rows reproduced, natural / clamped end conditions met to 5% of their own terms - partial pivoting is not row-scaling invariant); polynomial data are reproduced with all derivatives m <= k everywhere; library evaluation == coefficients x reference basis; dual abscissae (plain tagged and composite) return s', s'' as sensitivities, for the spline and for every basis function through the four public dual basis entry points; splines with dual data evaluated at a dual abscissa (m = 0 and m = 1) carry d/dx = next derivative, d/dy_j = unit-data spline (its derivative for m = 1) and, at second order, the mixed (x, y_j) terms; for dual data d s(x)/d y_j == row of the independently inverted collocation matrix (and the library's own unit-data spline), zero Hessian; the 3x3 spline-kind x abscissa-kind table (mapped_value and direct) returns matching kinds and refuses first/second-order mixes; unsolved evaluation, wrong site counts and y/tau length mismatches are errors. Non-trivial: k >= 3, >= 1 interior knot, and non-polynomial or dual data.".into()
     }
 
     fn floors(&self, tier: Tier) -> Vec<Floor> {
@@ -813,6 +855,7 @@ impl Property for C15 {
             Floor { label: "data:polynomial", min: n / 5 },
             Floor { label: "least-squares", min: n / 20 },
             Floor { label: "domain:rescaled-tiny", min: n / 20 },
+            Floor { label: "sites:unsorted", min: n / 10 },
             Floor { label: "domain:rescaled-huge", min: n / 20 },
             Floor { label: "abscissa:composite", min: n / 2 },
         ]
